@@ -273,9 +273,15 @@ def run_soe(case, ctx, rng):
     if form == "blkscaled":
         colsc = np.array([1.0, 10.0 ** rng.uniform(-12, -8), 10.0 ** rng.uniform(2, 4)])
         bf, xp = bf * colsc, xp * colsc
+    if form != "blkscaled" and rng.random() < 0.3:
+        # SI units: a stiff matrix (1e6 ... 1e11 N/m), support displacements of nanometres, loads of the matching size - the
+        # prescribed values are small numbers, not zeros
+        ka, kx = 10.0 ** rng.uniform(6, 11), 10.0 ** rng.uniform(-11, -8)
+        A, xp, bf = A * ka, xp * kx, bf * (ka * kx)
+        ctx.count("soe_cases_with_tiny_prescribed_values_on_a_stiff_matrix")
     if cplx_rhs or (cA and rng.random() < 0.5):
-        bf = bf + 1j * rng.standard_normal(bf.shape)
-        xp = xp + 1j * rng.standard_normal(xp.shape)
+        bf = bf + 1j * rng.standard_normal(bf.shape) * float(np.max(np.abs(bf)))
+        xp = xp + 1j * rng.standard_normal(xp.shape) * float(np.max(np.abs(xp)))
     # when only one index set is given the module completes the other one as the sorted complement
     if case["part"] == "free":
         p = np.sort(p)
